@@ -10,7 +10,7 @@ def run_vy(ctx, jobs, pb, max_exec, mode='dfs', runs=0, nsh=14, tagx='', max_ste
     import random
     jobs = list(jobs)
     random.Random(ctx.seed).shuffle(jobs)
-    n = max(1, min(nsh, len(jobs) // 3 + 1))
+    n = max(1, min(nsh, len(jobs) // 3 + 1, 16)) if nsh != len(jobs) else max(1, min(nsh, 16))
     xs = run_parallel([lambda i=i: explore(ctx, '%svy_%s_%d' % (tagx, mode, i), 'vy', jobs[i::n], mode=mode, pb=pb, max_exec=max_exec, runs=runs,
                                            max_steps=max_steps) for i in range(n)], maxw=n)
 
